@@ -282,11 +282,13 @@ class Check:
         return r
 
     # ---- Apalache (symbolic, full-size integers): optional extras; a run that does not finish is "not run", never a pass
-    def apalache(self, module, length, note, cinit=None, expect_violation=False, timeout=600):
-        wd = os.path.join(self.workdir, "apa_" + module + ("_" + cinit if cinit else ""))
+    def apalache(self, module, length, note, cinit=None, expect_violation=False, timeout=600, init=None):
+        wd = os.path.join(self.workdir, "apa_" + module + ("_" + cinit if cinit else "") + ("_" + init if init else ""))
         cmd = ["timeout", str(timeout), "apalache-mc", "check", "--inv=Inv", "--length=%d" % length, "--out-dir=" + wd]
         if cinit:
             cmd.append("--cinit=" + cinit)
+        if init:
+            cmd.append("--init=" + init)
         cmd.append(module + ".tla")
         t0 = time.time()
         r = subprocess.run(cmd, cwd=os.path.join(SPEC, "apalache"), stdout=subprocess.PIPE, stderr=subprocess.STDOUT, text=True)
